@@ -65,6 +65,11 @@ def rule_r2_r3(ctx, rep):
     T = ctx.tables
     ci = prog.cls(EWARN)
     members = set(prog.enum_members(ci))
+    from ..astutil import enum_aliases
+    for (m2, m1) in enum_aliases(prog, ci):
+        rep.oblige(("R3", "distinct", m2), False)
+        rep.add("R3", EWARN, f"member {m2}", f"{m2} has the same value as {m1}: it is an alias of that member, so the recommendation is reported "
+                f"under the other code", ci.module.relpath)
     emitted = set()
     evaluators = []
     for k, v in zip(table.keys, table.values):
@@ -140,6 +145,28 @@ def rule_r2_r3(ctx, rep):
         bad = [x for x in ast.walk(lp) if isinstance(x, (ast.Break, ast.Continue, ast.Return, ast.If, ast.Try))]
         if own is not None and isinstance(own[0], ast.Name) and own[0].id == tfi.params[0] and not bad:
             ok = True
+    if not rec:
+        # explicit-stack form: W = [root]; while W: cur = W.pop(); ...; W.extend(reversed(cur.children))
+        from .c05 import worklist_form
+        from ..condeval import enclosing_ifs
+        wl = worklist_form(tfi, tfi.params[0])
+        if wl is not None and wl["cur"] and len(wl["pops"]) == 1 and len(wl["pushes"]) == 1:
+            rep.count("evaluation walk loops")
+            lp, cur, (pop, kind), p = wl["loop"], wl["cur"], wl["pops"][0], wl["pushes"][0]
+            seq = p.value if isinstance(p, ast.AugAssign) else (p.args[0] if p.args and p.func.attr == "extend" else None)
+            rev = False
+            if isinstance(seq, ast.Call) and isinstance(seq.func, ast.Name) and seq.func.id == "reversed" and len(seq.args) == 1:
+                rev, seq = True, seq.args[0]
+            elif isinstance(seq, ast.Subscript) and isinstance(seq.slice, ast.Slice) and isinstance(seq.slice.step, ast.UnaryOp) and norm(seq.slice.step) == "-1" \
+                    and seq.slice.lower is None and seq.slice.upper is None:
+                rev, seq = True, seq.value
+            own = children_owner(seq) if seq is not None else None
+            stmt_of_push = next((s_ for s_ in ast.walk(lp) if isinstance(s_, (ast.Expr, ast.AugAssign)) and (s_ is p or getattr(s_, "value", None) is p)), None)
+            cond = [g for (g, _b) in enclosing_ifs(tfi, stmt_of_push) if any(x is g for x in ast.walk(lp))] if stmt_of_push is not None else [None]
+            exits = [x for x in ast.walk(lp) if isinstance(x, (ast.Break, ast.Continue, ast.Return, ast.Try))]
+            evaluated = any(isinstance(c, ast.Call) and any(tg.func is not None and tg.func.qname == EVAL + ".node" for tg in w.resolve_call(ft, c))
+                            and c.args and isinstance(c.args[0], ast.Name) and c.args[0].id == cur for c in ast.walk(lp))
+            ok = own is not None and isinstance(own[0], ast.Name) and own[0].id == cur and kind == "lifo" and rev and not cond and not exits and evaluated
     rep.oblige(("R2", "walk"), ok)
     if not ok:
         rep.add("R2", tfi.qname, "walk over the children", "evaluate.tree does not visit every child unconditionally and in order", tfi.loc())
@@ -216,10 +243,12 @@ def rule_r4(ctx, rep):
                     found.add(code.member)
                     guards = enclosing_ifs(fi, n)
                     # the innermost guard that is a numeric comparison
-                    g = None
+                    g, g_side = None, True
                     for (gi, b) in reversed(guards):
-                        if b and any(isinstance(c, ast.Compare) and isinstance(c.ops[0], (ast.Lt, ast.LtE, ast.Gt, ast.GtE, ast.Eq, ast.NotEq)) for c in ast.walk(gi.test)):
-                            g = gi
+                        if any(isinstance(c, ast.Compare) and isinstance(c.ops[0], (ast.Lt, ast.LtE, ast.Gt, ast.GtE)) and
+                               any(isinstance(prog.const(mi, o), int) and not isinstance(prog.const(mi, o), bool) for o in [c.left] + c.comparators)
+                               for c in ast.walk(gi.test)):
+                            g, g_side = gi, b
                             break
                     rep.count("threshold guards")
                     if g is None:
@@ -241,7 +270,7 @@ def rule_r4(ctx, rep):
                                 c.comparators[0] = ast.Name(id="__count__", ctx=ast.Load())
                                 replaced += 1
                     ast.fix_missing_locations(test2)
-                    if replaced != 1 or [v for v in free_names(test2) if v != "__count__"]:
+                    if replaced != 1 or [v for v in free_names(test2) if v != "__count__" and not isinstance(prog.const(mi, ast.Name(id=v, ctx=ast.Load())), (int, float, str))]:
                         rep.notes.append(f"{fi.qname}: threshold guard `{norm(g.test)}` not evaluated (cannot single out the count)")
                         continue
                     for k in (0, t - 1, t, t + 1):
@@ -252,6 +281,8 @@ def rule_r4(ctx, rep):
                             raise AnalysisError(f"{fi.loc(g)}: cannot evaluate threshold guard `{norm(g.test)}`: {ex}")
                         want = k < t
                         rep.count("threshold points")
+                        if res[0] == "value" and not g_side:
+                            res = ("value", not res[1])   # the report sits on the other side of the guard (guard clause / else branch)
                         ok = res == ("value", want)
                         rep.oblige(("R4", code.member, k), ok, sample={"warning": code.member, "count": k, "fires": res[1], "documented threshold": t}
                                    if k in (t - 1, t) else None)
@@ -331,7 +362,7 @@ def run(ctx, rep):
         "must hold a non-null fact); keys of the table fold to known element names; every value appended to a warning list is a "
         "(declared EvaluationWarning member, str, Node) triple; the walk visits all children unconditionally; every declared "
         "warning is emitted somewhere; the three threshold guards are evaluated at t-1, t, t+1")
-    rep.rules_run = ["R1", "R2", "R3", "R4", "R5", "R6", "R7"]
+    rep.rules_run = ["R1", "R2", "R3", "R4", "R5", "R6", "R7", "R8"]
     rep.assumptions += ["NOT decided: that the emitted set equals the documented recommendations on every tree (behavioural)",
                         "word counting relies on normalize()/str.split (library semantics, C20)"]
     only = getattr(rep, "only", None)
@@ -343,6 +374,23 @@ def run(ctx, rep):
         rule_r4(ctx, rep)
     if only in (None, "R5", "R6"):
         rule_r5_r6(ctx, rep)
+    if only in (None, "R8"):
+        # the recommendations are about an element's own children: a deep (descendant) query in an evaluator finds the named
+        # element anywhere below -- e.g. an abstract under project silences "dataset abstract missing".  Deep queries are
+        # for collecting text (get_text_content, R5) only.
+        from ..valslice import reachable as _reach
+        mi_ = ctx.prog.module(EVAL)
+        from ..model import iter_funcs_in_module as _iter
+        for f_ in _iter(mi_):
+            if f_.name == "get_text_content":
+                continue
+            for n_ in ast.walk(f_.node):
+                if isinstance(n_, ast.Call) and isinstance(n_.func, ast.Attribute) and n_.func.attr in ("find_descendant", "find_all_descendants", "find_all_nodes_by_path",
+                                                                                                       "find_single_node_by_path"):
+                    rep.oblige(("R8", f_.qname, norm(n_)[:60]), False)
+                    rep.add("R8", f_.qname, n_, f"{f_.name} looks for an element anywhere below the evaluated node: the recommendation is about the "
+                            f"node's own children, so an element of that name deeper down (e.g. an abstract under project) satisfies it wrongly", f_.loc(n_))
+        rep.count("evaluator functions scanned for deep queries", sum(1 for _ in _iter(mi_)))
     if only in (None, "R7"):
         # the warnings are a function of the tree alone: nothing on the evaluation slice keeps state between calls
         from ..memo import check_slice
